@@ -38,6 +38,9 @@ type G struct {
 	fuel   int
 	// NoIO makes the generated functions side-effect free (no write).
 	NoIO bool
+	// Ill is the rate (per thousand leaves) of ill-typed leaves and undefined
+	// names, which exercise the error paths.
+	Ill int
 }
 
 func (g *G) fresh(prefix string) string {
@@ -115,6 +118,13 @@ func (g *G) lit(t ty) string {
 func (g *G) expr(t ty, d int) string {
 	g.fuel--
 	if d <= 0 || g.fuel < 0 {
+		if g.Ill > 0 && rapid.IntRange(0, 999).Draw(g.T, "ill") < g.Ill {
+			// an undefined name or a literal of some other type
+			if g.pick(2) == 0 {
+				return "nothing" + string(rune('a'+g.pick(3)))
+			}
+			return g.lit(g.anyT())
+		}
 		if vs := g.vars(t, false); len(vs) > 0 && g.pick(3) > 0 {
 			return vs[g.pick(len(vs))].name
 		}
@@ -132,13 +142,20 @@ func (g *G) expr(t ty, d int) string {
 			op := []string{"+", "-", "*", "&", "|", "+", "-"}[g.pick(7)]
 			return g.paren(g.expr(tInt, d-1)) + " " + op + " " + g.paren(g.expr(tInt, d-1))
 		case 3:
+			if g.pick(3) == 0 {
+				return "#" + g.sliceOf("("+g.expr(tStr, d-1)+` + "pq")`, d-1)
+			}
 			return "#" + g.paren(g.expr([]ty{tStr, tArr}[g.pick(2)], d-1))
 		case 4:
 			return "-" + g.paren(g.expr(tInt, d-1))
 		case 5:
 			// safe index
 			a := g.expr(tArr, d-1)
-			return "(" + a + " + [7])[0]"
+			if g.pick(3) == 0 {
+				return "(" + a + " + [7])[0]"
+			}
+			// the index is computed (possibly through calls) but stays in range
+			return "(" + a + " + [7, 8])[" + g.smallIndex(d-1, 0) + "]"
 		case 6:
 			return g.paren(g.expr(tInt, d-1)) + " % " + fmt.Sprint(1+g.pick(5))
 		case 7:
@@ -180,7 +197,10 @@ func (g *G) expr(t ty, d int) string {
 			return "toa(" + g.expr([]ty{tInt, tBool, tArr, tFloat}[g.pick(4)], d-1) + ")"
 		case 3:
 			s := g.expr(tStr, d-1)
-			return "(" + s + ` + "pq")[1:2]`
+			if g.pick(4) == 0 {
+				return "(" + s + ` + "pq")[` + g.smallIndex(d-1, 0) + `]`
+			}
+			return g.sliceOf("("+s+` + "pq")`, d-1)
 		default:
 			return g.expr(tStr, 0)
 		}
@@ -197,12 +217,50 @@ func (g *G) expr(t ty, d int) string {
 			return "[" + strings.Join(xs, ", ") + "]"
 		case 3:
 			a := g.expr(tArr, d-1)
-			return "(" + a + " + [8, 9])[1:2]"
+			return g.sliceOf("("+a+" + [8, 9])", d-1)
 		default:
 			return g.expr(tArr, 0)
 		}
 	}
 	panic("expr")
+}
+
+// smallIndex is an int expression with value base or base+1, computed in one of
+// several ways: a constant, a masked arbitrary expression, or a call of a helper
+// whose body itself uses the temp register.
+func (g *G) smallIndex(d, base int) string {
+	b := fmt.Sprint(base)
+	switch g.pick(6) {
+	case 0:
+		return b
+	case 1:
+		return fmt.Sprint(base + 1)
+	case 2:
+		if base == 0 {
+			return g.bit(d)
+		}
+		return g.bit(d) + " + " + b
+	case 3:
+		if base == 0 {
+			return "one() - 1"
+		}
+		return "one()"
+	case 4:
+		return "inc(" + b + ") - 1"
+	default:
+		return "inc(" + b + ")"
+	}
+}
+
+// sliceOf slices base (of length >= 2) with bounds lo in {0,1} and hi in {1,2},
+// each computed in one of several ways.
+func (g *G) sliceOf(base string, d int) string {
+	return base + "[" + g.smallIndex(d, 0) + ":" + g.smallIndex(d, 1) + "]"
+}
+
+// bit is an int expression whose value is 0 or 1 whatever its operand is.
+func (g *G) bit(d int) string {
+	return g.paren(g.expr(tInt, d)) + " & 1"
 }
 
 func (g *G) paren(s string) string {
@@ -280,7 +338,11 @@ func (g *G) stmt(d int, ret ty) string {
 		if vs := g.vars(t, true); len(vs) > 0 {
 			v := vs[g.pick(len(vs))]
 			if t == tInt && g.pick(3) == 0 {
-				return v.name + " = " + v.name + " + 1"
+				return []string{v.name + " = " + v.name + " + 1", v.name + " = 1 + " + v.name, v.name + " = " + v.name + " + 2", v.name + " = 2 + " + v.name,
+					v.name + " = " + v.name + " - 1", v.name + " = " + v.name + " * 2", v.name + " = " + v.name + " + " + v.name, v.name + " = 1 + " + v.name + " + 1"}[g.pick(8)]
+			}
+			if (t == tStr || t == tArr) && g.pick(4) == 0 {
+				return v.name + " = " + v.name + " + " + g.expr(t, 0)
 			}
 			return v.name + " = " + g.expr(t, d)
 		}
@@ -390,7 +452,23 @@ func (g *G) fundef(d int, gen bool) string {
 			body += "\n" + g.stmt(d, info.ret)
 		}
 	} else {
-		body += "\n" + g.expr(info.ret, d)
+		// the last statement of a function is compiled in "returning" position
+		switch g.pick(12) {
+		case 0:
+			body += "\nif " + g.expr(tBool, d) + " {\n" + g.expr(info.ret, d) + "\n} else {\n" + g.expr(info.ret, d) + "\n}"
+		case 1: // a loop whose body always returns
+			body += "\nwhile " + g.expr(tBool, d) + " return " + g.expr(info.ret, d)
+		case 2: // a counted loop with a conditional return: falls through with the body's last value
+			w := g.fresh("w")
+			body += "\n" + w + " = 0\nwhile " + w + " < 3 {\n" + w + " = " + w + " + 1\nif " + g.expr(tBool, d) + " return " + g.expr(info.ret, d) + "\n}"
+		case 3:
+			v := g.fresh("v")
+			body += "\nfor " + v + " <- fromto(0, 3) if " + v + " == " + fmt.Sprint(g.pick(4)) + " return " + g.expr(info.ret, d)
+		case 4:
+			body += "\nif " + g.expr(tBool, d) + " return " + g.expr(info.ret, d) + "\n" + g.expr(info.ret, d)
+		default:
+			body += "\n" + g.expr(info.ret, d)
+		}
 	}
 	g.inGen, g.inFn = saveGen, saveFn
 	g.pop()
@@ -402,7 +480,7 @@ func (g *G) fundef(d int, gen bool) string {
 // Session generates a list of top-level statements.
 func (g *G) Session() []string {
 	g.scopes = [][]*vinfo{nil}
-	res := []string{}
+	res := g.helpers()
 	n := 3 + g.pick(8)
 	for i := 0; i < n; i++ {
 		g.fuel = 40 + g.pick(100)
@@ -568,7 +646,7 @@ func TypeName(t ty) string {
 // global variables of random types and nFuncs functions.
 func (g *G) Environment(nGlobals, nFuncs int) []string {
 	g.scopes = [][]*vinfo{nil}
-	pre := []string{"id = (z) -> z"}
+	pre := append([]string{"id = (z) -> z"}, g.helpers()...)
 	for k := 0; k < nGlobals; k++ {
 		g.fuel = 30
 		t := g.anyT()
@@ -624,13 +702,23 @@ func (g *G) GlobalOf(typ string) string {
 }
 
 // PureFunction defines a side-effect-free function in the current environment
-// and returns its definition and a call of it with generated arguments.
-func (g *G) PureFunction(d int) (def, call string) {
+// and returns its definition and two calls of it with generated arguments.
+func (g *G) PureFunction(d int) (def, call, other string) {
 	g.fuel = 60
 	g.NoIO = true
 	def = g.fundef(d, false)
 	scope := g.scopes[len(g.scopes)-1]
 	f := scope[len(scope)-1]
 	g.fuel = 20
-	return def, g.call(f, 1)
+	call = g.call(f, 1)
+	g.fuel = 20
+	return def, call, g.call(f, 1)
+}
+
+// helpers defines the small functions index expressions call; their bodies
+// use nested operators, i.e. the temp register.
+func (g *G) helpers() []string {
+	g.def(&vinfo{name: "one", t: tFn, ret: tInt})
+	g.def(&vinfo{name: "inc", t: tFn, ret: tInt, params: []ty{tInt}})
+	return []string{"one = () -> (3 - 1) - 1", "inc = (x) -> (x + 2) - 1"}
 }
